@@ -160,7 +160,8 @@ def cmd_run(pid, tier, seed):
                            f'{e["what"]} (violating regions this run: {s["regions"]}; e.g. {ks["model"]})')
     for fid, e in known.items():
         if fid not in seen:
-            tmpl_ran = any(r['template'] == e.get('template') for r in results)
+            from .runner import _cfg_match
+            tmpl_ran = any(r['template'] == e.get('template') and _cfg_match(e.get('config'), r['cfg']) for r in results)
             if tmpl_ran:
                 print(f'note: known finding {fid} ({e["clause"]}) did not reproduce in this run (repaired, or outside this tier\'s templates)')
 
